@@ -134,6 +134,31 @@ def case_stress_and_views(kind, fam, rep):
         if P.shape[0] == 3:
             run.compare("post.stress", "item=%s clause=cauchy" % lab, maxabs(solid.evaluate.cauchy_stress(field) - tau_ref / J) / maxabs(tau_ref / J), 1e-13,
                         "cauchy_stress != P F^T / det F", unit="stress:cauchy", config=(lab, kind, "cauchy"))
+        # ---- the reported stress belongs to the field handed in, whatever the body evaluated before (stale cached kinematics)
+        vals0 = field[0].values.copy()
+        for it in range(3):
+            field[0].values[:] = gen.random_displacement(rng, mesh, grad=float(rng.uniform(0.1, 0.35)))
+            F2 = field.extract()[0]
+            J2 = np.linalg.det(np.moveaxis(F2, (0, 1), (-2, -1)))
+            if J2.min() < 0.2:
+                run.skip("post.stress", "det F < 0.2")
+                continue
+            first = ("cauchy", "kirchhoff")[(it + rep) % 2] if P.shape[0] == 3 else "kirchhoff"
+            got = (solid.evaluate.cauchy_stress if first == "cauchy" else solid.evaluate.kirchhoff_stress)(field)
+            # the stress the body evaluated for this call; the condensed body's p, J are updated by every evaluation (by
+            # design), so only a plain SolidBody can be re-evaluated for an independent P
+            P2 = np.array(solid.results.stress[0], copy=True)
+            if not ni:
+                Pf = solid.evaluate.gradient(field)[0]
+                run.compare("post.stress", "item=%s clause=stress-state-is-of-this-field" % lab, maxabs(P2 - Pf) / maxabs(Pf), 1e-13,
+                            "the stress stored by %s_stress(field) is not the stress of that field" % first,
+                            unit="stress:stored-P", config=(lab, kind, first, "stored-P"))
+            ref2 = np.einsum("ik...,jk...->ij...", P2, F2) / (J2 if first == "cauchy" else 1.0)
+            run.compare("post.stress", "item=%s clause=%s-after-state-change" % (lab, first), maxabs(got - ref2) / maxabs(ref2), 1e-13,
+                        "%s_stress(field) evaluated first after the field changed is not P F^T%s of that field" % (first, " / det F" if first == "cauchy" else ""),
+                        unit="stress:%s:after-state-change" % first, config=(lab, kind, first, "after-state-change"))
+        field[0].values[:] = vals0
+        solid.evaluate.gradient(field)
         # ---- view data (what is handed to pyvista)
         Fm = F.mean(-2)  # i j c
         C = np.einsum("ki...,kj...->ij...", F, F)
@@ -241,7 +266,7 @@ def cases(tier, seed):
 SPEC = {
     "required_units": ["project:reproduction:quad", "project:reproduction:hexahedron", "project:reproduction:tetra10", "project:integral:quad9",
                        "project:reproduction:tetraMINI", "extrapolate:quad", "extrapolate:hexahedron", "topoints:average", "topoints:mean",
-                       "stress:kirchhoff", "stress:cauchy", "view:Deformation Gradient", "view:Logarithmic Strain",
+                       "stress:kirchhoff", "stress:cauchy", "stress:cauchy:after-state-change", "stress:kirchhoff:after-state-change", "view:Deformation Gradient", "view:Logarithmic Strain",
                        "view:Principal Values of Logarithmic Strain", "view:Displacement", "view:Cauchy Stress", "view:Kirchhoff Stress",
                        "view:Principal Values of Cauchy Stress", "view:Equivalent of Cauchy Stress", "job:Deformation Gradient",
                        "job:Logarithmic Strain", "job:Principal Values of Logarithmic Strain", "job:Displacement", "force", "moment"],
